@@ -157,6 +157,8 @@ def obligations(tier):
         for le in ([True, False] if (tier == 'quick' and sig in BE_QUICK) else orders):
             to = 180 if tier == 'quick' else 900
             nb = nbytes
+            if sig in ('s', 'o') and tier == 'thorough':
+                nb = 12
             if 'g' in sig:
                 nb = 7 if tier == 'quick' else 9
             obs.append(Ob('unm:%d:%s:%s:n%d' % (i, sig[:14], 'le' if le else 'be', nb), 'unm',
